@@ -241,26 +241,51 @@ def r13_2_generic_kinds(ctx):
                           'predicates accept exactly those origins and nothing else inspects __origin__', floor=4)
     want = {'is_generic_sequence': {'list', 'abc.Sequence', 'abc.MutableSequence'},
             'is_generic_mapping': {'dict', 'abc.Mapping', 'abc.MutableMapping'}}
+    from ..dtable import Evaluator, Unsupported
     for name, origins in want.items():
         f = fn(P, 'yatiml.util:' + name)
         p = f.fi.params[0]
-        got = None
-        for ret in f.returns():
-            v = ret.value
-            if not (isinstance(v, ast.BoolOp) and isinstance(v.op, ast.And)):
-                continue
-            inst = [x for x in v.values if isinstance(x, ast.Call) and call_name(x) == 'isinstance']
-            ors = [x for x in v.values if isinstance(x, ast.BoolOp) and isinstance(x.op, ast.Or)]
-            if inst and ors and 'typing._GenericAlias' in norm(inst[0]):
-                got = set()
-                for c in ors[0].values:
-                    if isinstance(c, ast.Compare) and isinstance(c.ops[0], ast.Is) and norm(c.left) == '%s.__origin__' % p:
-                        got.add(norm(c.comparators[0]))
-                    else:
-                        got.add('?' + norm(c))
-        r.check(got == origins, '%s accepts exactly the origins %s' % (name, sorted(origins)), f.key('origins'), f.loc(),
-                '%s accepts %s instead of %s: the abstract variants of the annotation are no longer interchangeable' % (
-                    name, sorted(got) if got else got, sorted(origins)))
+        # every origin the function mentions, plus the six of the two kinds and two outsiders
+        universe = {'list', 'dict', 'abc.Sequence', 'abc.MutableSequence', 'abc.Mapping', 'abc.MutableMapping', 'Union', 'frozenset'}
+        for n in f.walk():
+            if isinstance(n, ast.Compare) and len(n.ops) == 1 and isinstance(n.ops[0], (ast.Is, ast.Eq)) \
+                    and norm(n.left).endswith('%s.__origin__' % p):
+                universe.add(norm(n.comparators[0]))
+        accepted = set()
+        undecided = []
+        for chosen in sorted(universe):
+            def oracle(e, chosen=chosen):
+                t, pol = G.canon_atom(e)
+                if t == "hasattr(typing, '_GenericAlias')":
+                    return pol
+                if t == 'isinstance(%s, typing._GenericAlias)' % p:
+                    return pol
+                for op in (' is ', ' == '):
+                    if t.startswith('%s.__origin__%s' % (p, op)):
+                        return (t[len('%s.__origin__%s' % (p, op)):] == chosen) == pol
+                    if t.startswith('cast(Any, %s).__origin__%s' % (p, op)):
+                        return (t[len('cast(Any, %s).__origin__%s' % (p, op)):] == chosen) == pol
+                if t.startswith('%s.__origin__ in ' % p):
+                    try:
+                        els = [norm(x) for x in ast.parse(t[len('%s.__origin__ in ' % p):], mode='eval').body.elts]
+                        return (chosen in els) == pol
+                    except Exception:
+                        return None
+                return None
+            try:
+                ev = Evaluator(oracle)
+                res = {ev.truth(oc.value) if oc.kind == 'return' and oc.value is not None else (False if oc.kind != 'raise' else None)
+                       for oc in ev.run(f.node)}
+            except Unsupported as e:
+                raise AnalysisError('%s is outside the decidable subset: %s' % (name, e))
+            if res == {True}:
+                accepted.add(chosen)
+            elif res != {False}:
+                undecided.append(chosen)
+        r.check(accepted == origins and not undecided, '%s accepts exactly the origins %s (decision table over %d origins)' % (
+            name, sorted(origins), len(universe)), f.key('origins'), f.loc(),
+            '%s accepts %s%s instead of %s: the abstract variants of the annotation are no longer interchangeable' % (
+                name, sorted(accepted), (' (undecided: %s)' % undecided) if undecided else '', sorted(origins)))
     readers = []
     for fi in P.yatiml_functions():
         for n in walk_function(fi.node):
